@@ -174,7 +174,7 @@ def run(ctx):
         if ctx.tier == "quick" and "q" in tiers:
             ctx.add(n, kq, timeout=1500)
         elif ctx.tier == "thorough":
-            ctx.add(n, kt, timeout=3400)
+            ctx.add(n, kt, timeout=1200, min_K=kq or 40, chunk=2)
     ctx.run()
     for bn, r in ctx.bench_records.items():
         try:
